@@ -198,7 +198,7 @@ func (b *assignmentBuilder) structFieldAndStructGettersAndFields(lhs bmodel.Node
 			nested = true
 			nestStruct := gmodel.NestStruct{}
 			if util.IsPtr(lhs.ExprType()) {
-				nestStruct.InitExpr = fmt.Sprintf("%v = %v{}", lhs.AssignExpr(), b.imports.TypeName(lhs.ExprType()))
+				nestStruct.InitExpr = fmt.Sprintf("%v = %v{}", lhs.AssignExpr(), typeName(b.pkg, b.imports, lhs.ExprType()))
 			}
 			if rhs.ObjNullable() {
 				nestStruct.NullCheckExpr = rhs.NullCheckExpr()
@@ -620,7 +620,7 @@ func (b *assignmentBuilder) sliceToSlice(lhs, rhs bmodel.Node) (a gmodel.Assignm
 			a = gmodel.SliceLoopAssignment{
 				LHS: lhs.AssignExpr(),
 				RHS: rhs.AssignExpr(),
-				Typ: "[]" + b.imports.TypeName(lhsElem),
+				Typ: "[]" + typeName(b.pkg, b.imports, lhsElem),
 			}
 		}
 		return
@@ -630,8 +630,8 @@ func (b *assignmentBuilder) sliceToSlice(lhs, rhs bmodel.Node) (a gmodel.Assignm
 		a = gmodel.SliceTypecastAssignment{
 			LHS:  lhs.AssignExpr(),
 			RHS:  rhs.AssignExpr(),
-			Typ:  "[]" + b.imports.TypeName(lhsElem),
-			Cast: b.imports.TypeName(lhsElem),
+			Typ:  "[]" + typeName(b.pkg, b.imports, lhsElem),
+			Cast: typeName(b.pkg, b.imports, lhsElem),
 		}
 		return
 	}
